@@ -8,9 +8,16 @@ MUX_TEXT = ("TLC checks the property's monitors exhaustively on bounded configur
             "(spec/PenguinMux.tla; every interleaving of application calls, connection-task steps and deliveries within the bound); "
             "the specification is bound to the code by trace validation: harness-random schedules are executed on the real penguin-mux "
             "endpoints in a hand-polled deterministic simulator and TLC must match every recorded event (API results, decoded frames on "
-            "the link, wake-ups) against the specification's step functions with all monitors as invariants.")
+            "the link, wake-ups) against the specification's step functions with all monitors as invariants. Specification -> implementation: "
+            "TLC-generated schedules (random walks of the specification at the simulator's grain, with faults, time steps, datagram bursts, a "
+            "scripted adversarial peer; for C05/C06 also a breadth-first cover: one schedule per node of the bounded state graph) are executed on "
+            "the real code and validated the same way. A trace whose first divergence speaks about other properties is judged once more, over its "
+            "whole length, against the application-level contract spec/MuxApi.tla. C02-C06 add a threaded leg: real multiplexors on a multi-thread "
+            "runtime, application calls racing with the connection tasks, every iteration decided by TLC against spec/MuxStressDefs.tla; C03/C04 "
+            "also validate loom executions of the writer/credit race.")
 MUX_NOTE = ("bounded model (2 endpoints, small windows/queues/ids); simulator atomicity = one poll of the task future; in-memory reliable "
-            "ordered link with scripted faults; keepalive disabled in this family (C16 covers it)")
+            "ordered link whose sink buffers until flushed, with scripted faults; virtual time and the keepalive are part of the specification "
+            "(KaStep) and of the simulator (paused clock); the threaded leg samples interleavings, it does not enumerate them")
 REF_NOTE = "TLA+ used as an executable reference (decision procedure) rather than a state machine; decides the property on the enumerated domain plus random samples"
 
 CLAIMED = {
@@ -31,7 +38,7 @@ CLAIMED = {
                 note="TLA+ model is sequentially consistent; weak-memory behaviours are explored on the implementation side only (loom's C11 approximation: no load buffering / out-of-thin-air); quick tier bounds loom preemptions at 3",
                 ref="DESIGN.md section 4 (C12)"),
     "C17": dict(engine="tls", technique="TLA+ decision table + identity-reload state machine (TlsAuth.tla) enumerated by TLC; real rustls handshakes (in-memory duplex and the real server_main with SIGUSR1 reloads over loopback TCP) validated by TLC",
-                text="TLC enumerates the 72-cell authentication matrix and all reload interleavings of a small identity state machine written from the property text (it carries the server's client CA: a reload replaces certificate and key only; negative-control models -- stale, in-place, disconnecting, client-CA-dropping reloads -- must fail); every cell and script is executed as real handshakes with rcgen-generated chains: through the repository's own tls_connect / make_server_config / reload_tls_identity over an in-memory duplex, and through the real server entry point (server_main in-process on a loopback port, certificate files rewritten, SIGUSR1 raised, probes with a trusted client certificate, none, and one from another CA before and after every reload), with an application-data round trip deciding 'reached the server', and TLC validates every logged observation.",
+                text="TLC enumerates the 72-cell authentication matrix and all reload interleavings of a small identity state machine written from the property text (it carries the server's client CA and its generations: a reload replaces certificate and key and re-reads the client-CA bundle at the configured path, a rotation of that bundle in place takes effect at the next reload and not before, a failed reload changes nothing; a client-side machine covers a roots file replaced in place between connects; negative-control models -- stale, in-place, disconnecting, client-CA-dropping, stale-CA, eager-CA, stale-roots, deaf reloads -- must fail); every cell and script is executed as real handshakes with rcgen-generated chains: through the repository's own tls_connect / make_server_config / reload_tls_identity over an in-memory duplex, and through the real server entry point (server_main in-process on a loopback port, certificate files rewritten, SIGUSR1 raised, probes with a trusted client certificate, none, and one from another CA before and after every reload), with an application-data round trip deciding 'reached the server', and TLC validates every logged observation.",
                 note="thin use of TLA+ (decision table + small state machine); cryptography trusted to rustls/webpki/rcgen; the application client is TLS 1.3 only, TLS 1.2 is covered on the server side with a reference client; the real-server part uses real time only for generous deadlines (30 s) that separate tool errors from observations",
                 ref="DESIGN.md section 4 (C17)"),
     "C14": dict(engine="gate", technique="TLA+ decision table (Upgrade.tla) enumerated by TLC; every case sent in-process to the real hyper Service with an unknown-path twin; responses validated by TLC",
@@ -39,7 +46,7 @@ CLAIMED = {
                 note="thin use of TLA+ (decision table); in-process call: hyper's HTTP/1 parser and the tunnel behind a 101 are not exercised; the backend-configured variant runs in the thorough tier only",
                 ref="DESIGN.md section 4 (C14)"),
     "C19": dict(engine="retry", technique="TLA+ models of the back-off generator and of the reconnection loop (Backoff.tla, ClientRetry.tla) enumerated by TLC; real Backoff and real client against a scripted server; logs validated by TLC",
-                text="Backoff.tla: TLC enumerates every small (initial, max, multiplier, max_count) tuple and every advance/reset sequence; each is replayed on the real penguin_mux::timing::Backoff and every returned value validated. ClientRetry.tla: the attempt loop with the clauses DelaySequence, ResetAfterSuccess, GiveUpExactly, NonRetryableEndsAtOnce, ListenerAlive, NoLostRequest; TLC enumerates scripts of server behaviours per attempt (refuse, stall, bad response, close orderly/abruptly after d ms, healthy); the real client_main_inner runs against a scripted fake server on loopback and TLC validates each timeline (counts and order exact, time gaps with an exact lower and a generous upper bound).",
+                text="Backoff.tla: TLC enumerates every small (initial, max, multiplier, max_count) tuple and every advance/reset sequence; each is replayed on the real penguin_mux::timing::Backoff and every returned value validated. ClientRetry.tla: the attempt loop with the clauses DelaySequence, ResetAfterSuccess, GiveUpExactly, NonRetryableEndsAtOnce, ListenerAlive, NoLostRequest; TLC enumerates scripts of server behaviours per attempt (refuse, stall, bad response, close orderly/abruptly after d ms, healthy); the real client_main_inner runs against a scripted fake server on loopback (a part of the scripts once more over wss:// behind a TLS-terminating relay, where a stalled attempt stalls inside or after the TLS handshake) and TLC validates each timeline (counts and order exact, time gaps with an exact lower and a generous upper bound).",
                 note="real time and the real tokio runtime for the reconnection part (run sequentially, never overlapping with TLC); upper time bounds generous (delay + handshake_timeout + 1.5 s); a panic of Backoff next to Duration::MAX is accepted (outside the property's quantifier) and counted",
                 ref="DESIGN.md section 4 (C19)"),
     "C01": dict(engine="tunnel", technique="TLA+ oracle of a direct connection (DirectConn.tla) model-checked by TLC, which also generates the scenario scripts; per-endpoint logs of a real client+server on loopback validated by TLC (interleaving search)",
@@ -47,7 +54,7 @@ CLAIMED = {
                 note="real sockets and the real tokio runtime: schedules are whatever the runtime produces (sampled, not enumerated); one clock-based judgement (5 s 'left hanging' deadline); IPv4 loopback, plain WebSocket; completeness is not demanded where a direct connection would not promise it (after an abortive close / reset / refusal)",
                 ref="DESIGN.md section 4 (C01)"),
     "C16": dict(engine="keepalive", technique="timed TLA+ model (Keepalive.tla) checked by TLC + virtual-time traces of the real task validated by TLC",
-                text="TLC checks the clauses of C16 on the tick-based detector for every (I,T) of a grid and every pong history within the horizon (integer time); the real connection task runs on tokio's paused clock against a silent transport with a scripted responder for TLC-enumerated and random cases, and TLC evaluates the same clause definitions on every virtual-time trace.",
+                text="TLC checks the clauses of C16 on the tick-based detector for every (I,T) of a grid and every pong history within the horizon (integer time); the real connection task runs on tokio's paused clock against a silent transport with a scripted responder for TLC-enumerated and random cases, and TLC evaluates the same clause definitions on every virtual-time trace. Second leg: the keepalive inside the full multiplexor specification (PenguinMux.KaStep / AutoPong, model-checked in MC_Ka) -- two real endpoints with streams in use in the deterministic simulator on the paused clock, a peer that is no longer polled, harness-random and TLC-generated schedules with time steps, every trace validated poll by poll against MuxTrace.",
                 note="virtual time (exact); FIFO pongs; same-instant events may be processed in either order; finding F12 (false timeouts when I does not divide T) is a known design-level finding",
                 ref="DESIGN.md section 4 (C16)"),
 }
